@@ -1,512 +1,1134 @@
 """C43 - the flow view always shows exactly the matching flows in order.
 
-Decided from the source of mitmproxy/addons/view.py:
-  R43.1 membership agreement (decision table): every View method that inserts into ``_view`` (today _refilter, add, update;
-        private helpers inlined) is evaluated for all 8 combinations of filter(f) x show_marked x f.marked: it inserts only when
-        filter(f) and (not show_marked or f.marked), it can insert when that holds, and ``update`` removes the flow from the view
-        when it does not hold.  Every writer of ``self.filter`` / ``self.show_marked`` re-filters afterwards; nothing outside
-        view.py touches the view's internals.
-  R43.2 bookkeeping on all paths: store deletions are followed by sig_store_remove / sig_store_refresh and never leave the flow
-        in the view; in ``remove`` the index is taken and the view entry removed *before* the store entry (and its cached order
-        key) disappears; every view mutation is followed by the matching sig_view_* signal; Settings drops values on
-        sig_store_remove, prunes on sig_store_refresh and only creates values for stored flows; Focus only ever holds a flow of
-        the view (guard in the setter, None only when the view is empty, refocus when the focused flow left the view);
-        ``update`` refreshes the order key of flows that stay in the view and _OrderKey.refresh re-keys between remove and add.
-NOT decided: sortedness itself (sortedcontainers), the order-key functions, behaviour under re-entrant signal handlers.
+Decided by INTERPRETING mitmproxy/addons/view.py (View, Focus, Settings, the _OrderKey classes - every helper they call is followed
+by the interpreter, whatever its name or shape) in small concrete worlds against a reference written from the property text:
+two flows (one under test whose marked / filter-match / sort-size attributes are changed by the environment, one visible bystander),
+a scripted model of sortedcontainers.SortedKeyList (entries are filed under the key computed when they were added and are found
+again only under the key the key function answers *now*, like the real container) and of signals.SyncSignal (synchronous delivery,
+every send recorded together with the view / store state at that moment).  Histories over the public operations
+(add, update, remove, clear, clear_not_marked, set_filter, toggle_marked, set_order, set_reversed, Focus.flow = .., settings[..])
+are explored breadth first with state de-duplication; after EVERY step the world is compared with the reference:
+
+  R43.1 membership (decision table): after add / update / set_filter / toggle_marked / clear_not_marked the view holds exactly the
+        stored flows with filter(f) and (not show_marked or f.marked), each once - all 8 combinations of filter(f) x show_marked x
+        f.marked must have been exercised for new flows (add), changed flows (update: entering, staying, evicted) and re-filtering,
+        otherwise the run is an ANALYSIS-ERROR.
+  R43.2 bookkeeping: remove / clear / set_order / set_reversed leave exactly the expected members (a deleted flow never stays in the
+        view, also when its sort key changed since the last update); the public listing view[i] is the container's order (reversed on
+        request); per flow the sig_view_add / sig_view_remove(index) / sig_view_update / sig_store_remove notifications are exactly
+        those of the change made, each sent after the view / store was changed and with the index the flow had; the refresh signals of
+        re-filtering, clearing and reversing are sent; Settings only holds stored flows (and refuses to create values for others);
+        the focus is a flow of the view, None only when the view is empty, and the Focus.flow setter refuses flows outside the view;
+        update() re-files a flow that stays in the view under its current sort key; no operation raises.
+  closure: every function of view.py that writes the tracked state (the view container, the store, show_marked, filter, the focus
+        field, the settings values - the private field names are discovered by role from the interpreted constructors) must have been
+        executed by the exploration, and functions that were not executed may reach such writers only through the modelled public
+        operations; no other module touches the view's internals.
+NOT decided: sortedness itself (sortedcontainers), the order-key functions, re-entrant signal handlers, histories with more than two
+flows or longer than the exploration bound.
 """
 
 from __future__ import annotations
 
 import ast
+import collections
+import functools
 import itertools
+import operator
 import re
 
 from ..core import AnalysisError
-from ..core import norm
-from ..model import attr_chain
-from ..model import call_name
-from ..model import eval_order
-from ..model import last_attr
-from ..model import walk_in_order
-from ..paths import C
-from ..paths import GenericSpec
-from ..paths import index_of
-from ..paths import traces_of
+from ..pyint import ClassRef
+from ..pyint import Func
+from ..pyint import Interp
+from ..pyint import NullLog
+from ..pyint import Raised
+from ..pyint import Rec
 from ..selftest import Mutant
-from ._helpers_F import attribute_stores
-from ._helpers_F import class_members
-from ._helpers_F import kwarg
 from ._helpers_F import own_nodes
-from ._helpers_F import params_of
-from ._helpers_F import StrictEngine
 
 PROP = "C43"
 REG = {
     "strength": "partial",
-    "technique": "decision table over (filter, show_marked, marked) evaluated by path enumeration of every insertion site (helpers inlined); "
-    "must-precede / must-follow path rules for store, view, signal, Settings and Focus bookkeeping",
-    "claim": "all insertion sites of View (_refilter, add, update) agree with the membership predicate filter(f) and (not show_marked or f.marked), "
-    "update evicts flows that stop matching, filter / marked-only changes re-filter; store deletions signal and never leave view entries "
-    "behind, view mutations signal, Settings only holds stored flows, Focus only holds a flow of the view.",
-    "note": "Loops unrolled once (one flow per call). Trusted: sortedcontainers.SortedListWithKey, signals.SyncSignal (synchronous delivery).",
+    "technique": "bounded model checking by AST interpretation (pyint): View / Focus / Settings / _OrderKey are interpreted in concrete "
+    "two-flow worlds against scripted models of sortedcontainers.SortedKeyList and signals.SyncSignal; histories of the public operations "
+    "are explored breadth first with state de-duplication and every step is compared with a reference written from the property text "
+    "(decision table filter x show_marked x marked, signals, focus, settings); static closure over all writers of the tracked state",
+    "claim": "every operation that can insert into the view (add, update, re-filtering) agrees with the membership predicate filter(f) and "
+    "(not show_marked or f.marked) on all 8 combinations, update evicts flows that stop matching, filter / marked-only changes re-filter; "
+    "store deletions signal and never leave view entries behind (also after a sort-key change), per-flow notifications match the changes and "
+    "are sent after them, Settings only holds stored flows, Focus only holds a flow of the view, update re-files flows under their current key.",
+    "note": "Worlds of two flows, histories up to the exploration bound (state classes de-duplicated). Trusted: sortedcontainers.SortedKeyList "
+    "(modelled: entries found by the key function's current answer), signals.SyncSignal (synchronous delivery in connection order).",
 }
 
 F = "mitmproxy/addons/view.py"
-CELLS = list(itertools.product((True, False), repeat=3))  # (filter, show_marked, marked)
+FLOWFILTER = "mitmproxy/flowfilter.py"
+FLOW_SIGNALS = ("sig_view_add", "sig_view_remove", "sig_view_update", "sig_store_remove")
+MUTATING_METHODS = {"add", "remove", "clear", "update", "discard", "pop", "popitem", "insert", "append", "extend", "setdefault",
+                    "__setitem__", "__delitem__", "move_to_end", "sort", "reverse"}
 
 
 def pred(flt, show_marked, marked):
-    return flt and (not show_marked or marked)
+    return bool(flt) and (not show_marked or bool(marked))
 
 
 # ---------------------------------------------------------------------------------------------------
-# event alphabet shared by all rules
+# trusted library models
 
 
-def classify_call(n: ast.Call):
-    name = call_name(n)
-    if name in ("self._view.add", "self._view.update", "self._view.insert", "self.view._view.add"):
-        return ("insert",)
-    if name in ("self._view.remove", "self._view.discard", "self._view.pop", "self.view._view.remove"):
-        return ("vremove",)
-    if name == "self._view.clear":
-        return ("vclear",)
-    if name == "self._view.index":
-        return ("vindex",)
-    if name in ("self._store.pop", "self._store.popitem"):
-        return ("storedel",)
-    if name == "self._store.clear":
-        return ("storedel",)
-    if name == "self.order_key.refresh":
-        return ("rekey",)
-    m = re.fullmatch(r"self\.(?:view\.)?(sig_\w+)\.send", name)
-    if m:
-        return ("send", m.group(1))
-    return None
+def _accepts(fn):
+    fn._pyint_accepts_abstract = True
+    fn._c43_model = True
+    return fn
 
 
-def membership(expr):
-    """('instore'|'inview', positive?) for `x in self._store` / `x not in self._view` (also via self.view.)"""
-    if isinstance(expr, ast.Compare) and len(expr.ops) == 1 and isinstance(expr.ops[0], (ast.In, ast.NotIn)):
-        ch = attr_chain(expr.comparators[0])
-        kind = {"self._store": "instore", "self.view._store": "instore", "self._view": "inview", "self.view._view": "inview"}.get(ch)
-        if kind:
-            return kind, isinstance(expr.ops[0], ast.In)
-    return None
+class _Model:
+    """base of the scripted library objects: anything that is not modelled is an ANALYSIS-ERROR, never a guess"""
+
+    _pyint_accepts_abstract = True
+    _what = "library model"
+
+    def __getattr__(self, name):
+        if name.startswith("__") and name.endswith("__"):
+            raise AttributeError(name)
+        raise AnalysisError(f"C43 {self._what}: attribute '{name}' is not modelled")
 
 
-class ViewSpec(GenericSpec):
-    """Events: insert / vremove / vclear / vindex / storedel / rekey / ('send', sig) / ('assign', target) / ('del', target);
-    conditions: ('instore', v) / ('inview', v) and whatever ``extra_cond`` recognises."""
+class _SortedKeyList(_Model):
+    """sortedcontainers.SortedKeyList: (key, value) pairs sorted by the key computed when the value was added; lookups compute the key
+    of the probe value *now* and compare values only among the entries filed under an equal key."""
 
-    def __init__(self, ctx, cls="View", extra_cond=None, inline_private=True):
-        super().__init__(record_conds=True)
-        self._ctx = ctx
-        self._cls = cls
-        self._extra = extra_cond
-        self._inline_private = inline_private
+    _what = "sortedcontainers.SortedKeyList model"
 
-    def events(self, node, st):
-        out = []
-        for n in eval_order(node):
-            if isinstance(n, ast.Call):
-                ev = classify_call(n)
-                if ev:
-                    out.append(ev)
-        if isinstance(node, ast.Assign):
-            for t in node.targets:
-                v = "None" if isinstance(node.value, ast.Constant) and node.value.value is None else "value"
-                out.append(("assign", norm(t), v))
-        elif isinstance(node, ast.Delete):
-            for t in node.targets:
-                if attr_chain(getattr(t, "value", None)) == "self._store":
-                    out.append(("storedel",))
-                else:
-                    out.append(("del", norm(t)))
-        elif isinstance(node, ast.Raise):
-            out.append(("raise", last_attr(node.exc) if node.exc is not None else ""))
+    def __init__(self, world, iterable=None, key=None):
+        self.world = world
+        self.key = key
+        self.items: list = []
+        world.models.append(self)
+        if key is None:
+            raise AnalysisError("C43 sortedcontainers model: a sorted list without key function is not modelled")
+        if iterable is not None:
+            self.update(iterable)
+
+    def _k(self, v):
+        return self.world.interp.apply(self.key, [v], {}, 0)
+
+    def _find(self, v):
+        k = self._k(v)
+        for i, (kk, vv) in enumerate(self.items):
+            if kk == k and vv is v:
+                return i
+        return -1
+
+    def add(self, v):
+        k = self._k(v)
+        i = len(self.items)
+        try:
+            while i > 0 and self.items[i - 1][0] > k:
+                i -= 1
+        except TypeError:
+            raise AnalysisError("C43 sortedcontainers model: incomparable sort keys in the abstract world")
+        self.items.insert(i, (k, v))
+        self.world.mut_log.append(("add", v, i))
+
+    def update(self, iterable):
+        for v in list(iterable):
+            self.add(v)
+
+    def __contains__(self, v):
+        return self._find(v) >= 0
+
+    def index(self, v, start=None, stop=None):
+        i = self._find(v)
+        n = len(self.items)
+        lo = 0 if start is None else (start + n if start < 0 else start)
+        hi = n if stop is None else (stop + n if stop < 0 else stop)
+        if i < 0 or not (lo <= i < hi):
+            raise Raised("ValueError", f"{v!r} is not in list")
+        return i
+
+    def count(self, v):
+        return 1 if self._find(v) >= 0 else 0
+
+    def remove(self, v):
+        i = self._find(v)
+        if i < 0:
+            raise Raised("ValueError", f"{v!r} not in list")
+        del self.items[i]
+        self.world.mut_log.append(("remove", v, i))
+
+    def discard(self, v):
+        i = self._find(v)
+        if i >= 0:
+            del self.items[i]
+            self.world.mut_log.append(("remove", v, i))
+
+    def pop(self, index=-1):
+        try:
+            k, v = self.items[index]
+        except IndexError:
+            raise Raised("IndexError", "pop index out of range")
+        i = index if index >= 0 else len(self.items) + index
+        del self.items[i]
+        self.world.mut_log.append(("remove", v, i))
+        return v
+
+    def __delitem__(self, index):
+        if not isinstance(index, int):
+            raise AnalysisError("C43 sortedcontainers model: slice deletion is not modelled")
+        self.pop(index)
+
+    def clear(self):
+        for i, (_, v) in enumerate(self.items):
+            self.world.mut_log.append(("remove", v, i))
+        self.items.clear()
+
+    def __len__(self):
+        return len(self.items)
+
+    def __bool__(self):
+        return bool(self.items)
+
+    def __getitem__(self, i):
+        if isinstance(i, slice):
+            return [v for _, v in self.items[i]]
+        return self.items[i][1]
+
+    def __iter__(self):
+        return iter([v for _, v in self.items])
+
+    def __reversed__(self):
+        return iter([v for _, v in reversed(self.items)])
+
+    def copy(self):
+        c = _SortedKeyList(self.world, key=self.key)
+        c.items = list(self.items)
+        return c
+
+    def bisect_right(self, v):
+        k = self._k(v)
+        i = 0
+        while i < len(self.items) and self.items[i][0] <= k:
+            i += 1
+        return i
+
+    bisect = bisect_right
+
+    def bisect_left(self, v):
+        k = self._k(v)
+        i = 0
+        while i < len(self.items) and self.items[i][0] < k:
+            i += 1
+        return i
+
+
+class _Signal(_Model):
+    """signals.SyncSignal: receivers are called synchronously in connection order; every send is recorded with the state it saw"""
+
+    _what = "signals.SyncSignal model"
+
+    def __init__(self, world, spec=None):
+        self.world = world
+        self.spec = spec
+        self.name = None
+        self.receivers: list = []
+        world.models.append(self)
+
+    def connect(self, receiver):
+        self.receivers.append(receiver)
+        return receiver
+
+    def disconnect(self, receiver):
+        self.receivers[:] = [r for r in self.receivers if r is not receiver]
+
+    def send(self, *args, **kwargs):
+        named = dict(kwargs)
+        node = getattr(self.spec, "node", None)
+        if args:
+            params = [a.arg for a in node.args.posonlyargs + node.args.args] if node is not None else []
+            if len(args) > len(params):
+                raise AnalysisError(f"C43 signal model: positional arguments of {self.name}.send(...) do not fit the signal's signature")
+            named.update(zip(params, args))
+        self.world.sig_log.append((self.name, named, self.world.facts()))
+        for r in list(self.receivers):
+            self.world.interp.apply(r, list(args), dict(kwargs), 0)
+
+
+class _NS(_Model):
+    _what = "library namespace model"
+
+    def __init__(self, what, **kw):
+        self.__dict__["_what"] = what
+        self.__dict__.update(kw)
+
+
+# ---------------------------------------------------------------------------------------------------
+# interpreter
+
+
+class ViewInterp(Interp):
+    """pyint + the container protocol of records bound to repository classes (x[i], len(x), y in x, truthiness, iteration go to the
+    class's dunder methods), a no-op super().__init__ for non-repository bases, and a record of every function that was entered."""
+
+    def __init__(self, *a, **k):
+        super().__init__(*a, **k)
+        self.entered: set = set()
+        self._dunder: dict = {}
+        self._props: dict = {}
+        self._globals: dict = {}
+
+    def dunder(self, v, name):
+        if isinstance(v, Rec) and v._impl is not None:
+            key = (v._impl, name)
+            if key not in self._dunder:
+                self._dunder[key] = self.model.method(v._impl[0], v._impl[1], name)
+            m = self._dunder[key]
+            if m is not None:
+                return Func(m[0], m[1], bound=v)
+        return None
+
+    def call_func(self, f, args, kwargs, depth):
+        self.entered.add(f.node)
+        return super().call_func(f, args, kwargs, depth)
+
+    def truthy(self, v):
+        if isinstance(v, Rec) and v._impl is not None:
+            m = self.dunder(v, "__bool__") or self.dunder(v, "__len__")
+            if m is not None:
+                return bool(self.apply(m, [], {}, 0))
+        return super().truthy(v)
+
+    def find_property(self, rec, attr, kind="getter"):
+        if rec._impl is None:
+            return None
+        key = (rec._impl, attr, kind)
+        if key not in self._props:
+            self._props[key] = super().find_property(rec, attr, kind)
+        return self._props[key]
+
+    def name(self, ident, env, mod, depth, node):
+        if ident in env:
+            return env[ident]
+        if "$closure" in env:
+            return super().name(ident, env, mod, depth, node)
+        key = (mod.rel, ident)  # module level: definitions, imports, constants, builtins - the same answer for the whole run
+        if key not in self._globals:
+            self._globals[key] = super().name(ident, env, mod, depth, node)
+        return self._globals[key]
+
+    def ev(self, e, env, mod, depth):
+        t = type(e)
+        if t is ast.Name:
+            return self.name(e.id, env, mod, depth, e)
+        if t is ast.Constant:
+            return e.value
+        if t is ast.Attribute:
+            return self.getattr(self.ev(e.value, env, mod, depth), e.attr, e, depth)
+        if t is ast.Call:
+            self.tick()
+            return self.ev_call(e, env, mod, depth)
+        if t is ast.Subscript:
+            base = self.ev(e.value, env, mod, depth)
+            idx = self.ev(e.slice, env, mod, depth)
+            m = self.dunder(base, "__getitem__")
+            if m is not None:
+                return self.apply(m, [idx], {}, depth, e)
+            return super().ev(ast.Subscript(value=ast.Name(id="$base"), slice=ast.Name(id="$idx")), {"$base": base, "$idx": idx}, mod, depth)
+        return super().ev(e, env, mod, depth)
+
+    def cmp(self, op, a, b, node):
+        if isinstance(op, (ast.In, ast.NotIn)):
+            m = self.dunder(b, "__contains__")
+            if m is not None:
+                r = self.truthy(self.apply(m, [a], {}, 0, node))
+                return r if isinstance(op, ast.In) else not r
+            if isinstance(b, Rec) and b._impl is not None and self.dunder(b, "__getitem__") is not None:
+                r = any(x is a or x == a for x in self.iterate(b, node))
+                return r if isinstance(op, ast.In) else not r
+        return super().cmp(op, a, b, node)
+
+    def iterate(self, v, node):
+        if isinstance(v, Rec) and v._impl is not None:
+            m = self.dunder(v, "__iter__")
+            if m is not None:
+                return self.iterate(self.apply(m, [], {}, 0), node)
+            ln, gi = self.dunder(v, "__len__"), self.dunder(v, "__getitem__")
+            if ln is not None and gi is not None:
+                return [self.apply(gi, [i], {}, 0) for i in range(self.apply(ln, [], {}, 0))]
+        if isinstance(v, _SortedKeyList) or type(v).__name__ in ("odict_values", "odict_keys", "odict_items", "dict_keyiterator", "dict_valueiterator", "dict_itemiterator", "list_iterator", "odict_iterator"):
+            return list(v)
+        return super().iterate(v, node)
+
+    def native_call(self, f, args, kwargs, where):
+        if f is len and len(args) == 1:
+            m = self.dunder(args[0], "__len__")
+            if m is not None:
+                return self.apply(m, [], {}, 0)
+        if f in (list, tuple) and len(args) == 1 and isinstance(args[0], Rec):
+            return f(self.iterate(args[0], None))
+        if isinstance(getattr(f, "__self__", None), _Model) or getattr(f, "_c43_model", False):
+            try:
+                return f(*args, **kwargs)
+            except (AnalysisError, Raised):
+                raise  # the models raise the library's exceptions as interpreted exceptions themselves
+            except Exception as e:
+                raise AnalysisError(f"C43 world model: {type(e).__name__}: {e} at {where} (call does not fit the modelled library)")
+        return super().native_call(f, args, kwargs, where)
+
+    def getattr(self, base, attr, node, depth):
+        if isinstance(base, tuple) and base and base[0] == "$super" and attr == "__init__":
+            try:
+                return super().getattr(base, attr, node, depth)
+            except AnalysisError:
+                return _accepts(lambda *a, **k: None)  # object.__init__ / collections.abc mixins: nothing to initialise
+        if isinstance(base, tuple) and base and base[0] == "$module":
+            try:
+                return super().getattr(base, attr, node, depth)
+            except AnalysisError:
+                sub = self.model.module_by_dotted(f"{base[1].dotted}.{attr}")  # `import pkg.mod` spelled pkg.mod.Name
+                if sub is None:
+                    raise
+                return ("$module", sub)
+        return super().getattr(base, attr, node, depth)
+
+
+# ---------------------------------------------------------------------------------------------------
+# the world: one interpreted View with two flows, observed through roles
+
+
+class SetupViolation(Exception):
+    """the very first steps (field discovery on a new view) already contradict the reference"""
+
+    def __init__(self, rule, op, clause, detail, history):
+        super().__init__(detail)
+        self.args5 = (rule, op, clause, detail, history)
+
+
+class Ref:
+    """reference state, written from the property text"""
+
+    def __init__(self):
+        self.store: list = []  # names of stored flows
+        self.shown: set = set()  # names of the flows the view must hold
+        self.show_marked = False
+        self.filter = "all"  # 'all' | 'attr' (the stub filter answers f.matches)
+        self.reversed = False
+
+    def copy(self):
+        r = Ref()
+        r.store, r.shown, r.show_marked, r.filter, r.reversed = list(self.store), set(self.shown), self.show_marked, self.filter, self.reversed
+        return r
+
+
+class World:
+    def __init__(self, model):
+        self.model = model
+        self.mod = model.module(F)
+        self.models: list = []
+        self.sig_log: list = []
+        self.mut_log: list = []
+        self.history: list = []
+        self.ref = Ref()
+        self.names: dict = {}
+        it = ViewInterp(
+            model,
+            trusted_modules={
+                "collections": collections,
+                "logging": NullLog(),
+                "re": re,
+                "itertools": itertools,
+                "functools": functools,
+                "operator": operator,
+                "sortedcontainers": _NS(
+                    "sortedcontainers model",
+                    SortedListWithKey=_accepts(lambda iterable=None, key=None: _SortedKeyList(self, iterable, key)),
+                    SortedKeyList=_accepts(lambda iterable=None, key=None: _SortedKeyList(self, iterable, key)),
+                    SortedList=_accepts(lambda iterable=None, key=None: _SortedKeyList(self, iterable, key)),
+                ),
+            },
+            externals={"id": id, "hash": hash},  # identity of records: stable for the whole run
+            max_steps=50_000_000,
+        )
+        self.interp = it
+        sig_ns = _NS("mitmproxy.utils.signals model", SyncSignal=_accepts(lambda spec=None: _Signal(self, spec)))
+        for local, target in self.mod.imports.items():
+            if target == "mitmproxy.utils.signals":
+                it.overrides[(F, local)] = sig_ns
+            elif target == "mitmproxy.utils.signals.SyncSignal":
+                it.overrides[(F, local)] = sig_ns.SyncSignal
+            elif target.startswith("mitmproxy.utils.signals."):
+                raise AnalysisError(f"view.py imports {target}: only SyncSignal is modelled")
+            elif target == "mitmproxy.ctx":
+                # the option store seen by View.configure (only used to switch focus-follow on)
+                it.overrides[(F, local)] = _NS("mitmproxy.ctx model", options=_NS("ctx.options model", console_focus_follow=True))
+        # flowfilter.match_all is `parse("~all")`: the filter that matches every flow (the filter language itself is C42's subject)
+        self.match_all = _accepts(lambda f: True)
+        it.overrides[(FLOWFILTER, "match_all")] = self.match_all
+        it._modconst[(FLOWFILTER, "match_all")] = self.match_all
+        self.attr_filter = _accepts(lambda f: f.matches)
+        self.flows = {"f1": self._flow("f1", 1, matches=True, marked=""), "f2": self._flow("f2", 2, matches=True, marked=":default:")}
+        self.view = it.apply(ClassRef(self.mod, model.cls(F, "View")), [], {}, 0)
+        self._discover()
+
+    # -- construction ----------------------------------------------------------------------------
+    @staticmethod
+    def _flow(name, n, matches, marked):
+        req = Rec("Request", _name=f"{name}.request", raw_content=b"x" * n, method="GET", url=f"http://h/{name}", timestamp_start=float(n))
+        return Rec("HTTPFlow", _bases=("Flow",), _name=name, id=f"id-{name}", marked=marked, matches=matches, killable=False, type="http",
+                   timestamp_created=float(n), request=req, response=None, error=None, intercepted=False, live=False)
+
+    def _discover(self):
+        """private field names by role"""
+        v = self.view
+        if not isinstance(v, Rec):
+            raise AnalysisError("View() did not produce a record")
+        views = [k for k, x in v.__dict__.items() if isinstance(x, _SortedKeyList)]
+        if len(views) != 1:
+            raise AnalysisError(f"View.__init__: expected exactly one sorted container field, found {views}")
+        self.names["view"] = views[0]
+        for k, x in v.__dict__.items():
+            if isinstance(x, _Signal):
+                x.name = k
+        for want in FLOW_SIGNALS + ("sig_view_refresh", "sig_store_refresh"):
+            if not isinstance(v.__dict__.get(want), _Signal):
+                raise AnalysisError(f"View.__init__ does not create the signal {want}")
+        for k in ("focus", "settings"):
+            if not (isinstance(v.__dict__.get(k), Rec) and v.__dict__[k]._impl is not None):
+                raise AnalysisError(f"View.__init__ does not create View.{k} from a class of view.py")
+        for k, x in v.focus.__dict__.items():
+            if isinstance(x, _Signal):
+                x.name = "focus." + k
+        # the store: the mapping that holds a flow's id after add(); the settings values: the mapping that gains the id on settings[f];
+        # the focus field: what the Focus.flow setter changes.  Discovered on a scratch history that is undone afterwards.
+        snap = self.snapshot()
+        f = self.flows["f2"]
+        before = {k: dict(x) for k, x in v.__dict__.items() if isinstance(x, dict)}
+        try:
+            self.interp.method(v, "add", [f])
+        except Raised as r:
+            raise SetupViolation("R43.2", api("add", "f2"), "raises", f"add([f2]) on a new view raises {r.name}", ["add([f2])"])
+        stores = [k for k, x in v.__dict__.items() if isinstance(x, dict) and f.id in x and f.id not in before.get(k, {})]
+        if len(stores) != 1:
+            raise AnalysisError(f"View.add: expected exactly one mapping field to gain the flow's id, found {stores}")
+        self.names["store"] = stores[0]
+        if [x for _, x in self.container().items] != [f]:
+            raise SetupViolation("R43.1", api("add", "f2"), "view membership disagrees with filter(f) and (not show_marked or f.marked) over the stored flows",
+                                 f"a new unfiltered view holds {[self.name_of(x) for _, x in self.container().items]} after add([f2])", ["add([f2])"])
+        try:
+            self.lookup_settings(f)
+        except Raised as r:
+            raise SetupViolation("R43.2", ("probe", "settings", ("f2",)), "Settings has no values for a stored flow", f"raised {r.name}", ["add([f2])", "settings[f2]"])
+        vals = [k for k, x in v.settings.__dict__.items() if isinstance(x, dict) and isinstance(x.get(f.id), dict)]
+        if len(vals) != 1:
+            raise AnalysisError(f"Settings: expected exactly one mapping field keyed by flow id, found {vals}")
+        self.names["values"] = vals[0]
+        try:
+            self.set_focus(f)
+        except Raised as r:
+            raise SetupViolation("R43.2", ("probe", "focus", ("f2",)), "Focus.flow setter refuses a flow of the view", f"raised {r.name}", ["add([f2])", "focus.flow = f2"])
+        held = {k for k, x in v.focus.__dict__.items() if x is f}
+        try:
+            self.set_focus(None)
+        except Raised as r:
+            raise AnalysisError(f"Focus.flow = None raises {r.name}: the focus field cannot be discovered")
+        fields = sorted(k for k in held if v.focus.__dict__.get(k) is None)
+        if len(fields) != 1:
+            raise AnalysisError(f"Focus.flow setter: expected exactly one backing field, found {fields}")
+        self.names["focus"] = fields[0]
+        self.restore(snap)
+
+    # -- roles -----------------------------------------------------------------------------------
+    def container(self) -> _SortedKeyList:
+        c = self.view.__dict__.get(self.names["view"])
+        if not isinstance(c, _SortedKeyList):
+            raise AnalysisError(f"View.{self.names['view']} no longer holds a sorted container")
+        return c
+
+    def store(self):
+        s = self.view.__dict__.get(self.names["store"])
+        if not isinstance(s, dict):
+            raise AnalysisError(f"View.{self.names['store']} no longer holds a mapping")
+        return s
+
+    def name_of(self, x):
+        for n, f in self.flows.items():
+            if f is x:
+                return n
+        return None if x is None else f"<{x!r}>"
+
+    def filed(self):
+        return [(k, self.name_of(v)) for k, v in self.container().items]
+
+    def facts(self):
+        """what a signal receiver can see at the moment of a send"""
+        last_removed = {}
+        for kind, v, i in self.mut_log:
+            if kind == "remove":
+                last_removed[self.name_of(v)] = i
+            elif kind == "add":
+                last_removed.pop(self.name_of(v), None)
+        if "store" not in self.names:
+            return {}  # (field discovery in progress)
+        return {"filed": [n for _, n in self.filed()], "store": list(self.store().keys()), "removed_at": last_removed}
+
+    def focus_flow(self):
+        return self.interp.getattr(self.view.focus, "flow", None, 0)
+
+    def set_focus(self, f):
+        self.interp.assign(ast.Attribute(value=ast.Name(id="$o"), attr="flow"), f, {"$o": self.view.focus}, self.mod, 0)
+
+    def lookup_settings(self, f):
+        return self.interp.ev(ast.Subscript(value=ast.Name(id="$s"), slice=ast.Name(id="$f")), {"$s": self.view.settings, "$f": f}, self.mod, 0)
+
+    def settings_keys(self):
+        return list(self.interp.iterate(self.view.settings, None))
+
+    def listing(self):
+        return [self.name_of(x) for x in self.interp.iterate(self.view, None)]
+
+    def live_key(self, f):
+        """the sort key the current order gives the flow *now*: the answer of the container's key function for an identical flow that is not
+        stored (no cached value can exist for it)"""
+        twin = Rec(f._cls, _bases=f._bases, _name=f._name + "'", **{k: v for k, v in f.__dict__.items() if not k.startswith("_")})
+        object.__setattr__(twin, "id", "id-twin")
+        try:
+            return self.interp.apply(self.container().key, [twin], {}, 0)
+        except Raised as r:
+            raise AnalysisError(f"the view's key function raises {r.name} for a flow that is not stored: the current sort key cannot be determined")
+
+    # -- snapshot / restore (identity preserving) --------------------------------------------------
+    def snapshot(self):
+        objs, seen, todo = [], set(), [self.view, *self.flows.values()]
+        while todo:
+            v = todo.pop()
+            if id(v) in seen or v is None or isinstance(v, (str, bytes, int, float, bool)):
+                continue
+            if isinstance(v, Rec):
+                seen.add(id(v))
+                d = dict(v.__dict__)
+                objs.append((v, d))
+                todo.extend(d.values())
+            elif isinstance(v, dict):
+                seen.add(id(v))
+                objs.append((v, list(v.items())))
+                todo.extend(v.values())
+            elif isinstance(v, list):
+                seen.add(id(v))
+                objs.append((v, list(v)))
+                todo.extend(v)
+            elif isinstance(v, (tuple, set, frozenset)):
+                todo.extend(v)
+            elif isinstance(v, _SortedKeyList):
+                seen.add(id(v))
+                objs.append((v, list(v.items)))
+                todo.append(v.key)
+                todo.extend(x for _, x in v.items)
+            elif isinstance(v, _Signal):
+                seen.add(id(v))
+                objs.append((v, list(v.receivers)))
+                todo.extend(v.receivers)
+            elif isinstance(v, Func):
+                todo.append(v.bound)
+        return objs, self.ref.copy(), list(self.history)
+
+    def restore(self, snap):
+        objs, ref, hist = snap
+        for obj, saved in objs:
+            if isinstance(obj, Rec):
+                obj.__dict__.clear()
+                obj.__dict__.update(saved)
+            elif isinstance(obj, dict):
+                obj.clear()
+                obj.update(saved)
+            elif isinstance(obj, list):
+                obj[:] = saved
+            elif isinstance(obj, _SortedKeyList):
+                obj.items[:] = saved
+            elif isinstance(obj, _Signal):
+                obj.receivers[:] = saved
+        self.ref, self.history = ref.copy(), list(hist)
+
+    # -- state class for de-duplication ------------------------------------------------------------
+    def state_class(self):
+        """(coarse, fine): everything the operations can depend on; the coarse class leaves out the marked / filter-match attributes of the flows"""
+        st = self.store()
+        vals = self.view.settings.__dict__.get(self.names["values"], {})
+        per, attrs = [], []
+        for n, f in self.flows.items():
+            cache = vals.get(f.id) if isinstance(vals, dict) else None
+            per.append((n, f.id in st, len(f.request.raw_content), tuple(sorted(repr(x) for x in cache.values())) if isinstance(cache, dict) else None))
+            attrs.append((bool(f.marked), bool(f.matches)))
+        coarse = (tuple(self.filed()), tuple(per), self.name_of(self.view.focus.__dict__.get(self.names["focus"])),
+                  self.ref.show_marked, self.ref.filter, self.ref.reversed, id(self.container().key))
+        return coarse, (coarse, tuple(attrs))
+
+
+# ---------------------------------------------------------------------------------------------------
+# operations and the per-step comparison with the reference
+
+# op = (kind, name, args): kind 'api' (a public View method), 'env' (the environment changes a flow), 'probe' (Focus.flow = f, settings[f])
+REFILTERING = {"set_filter", "toggle_marked", "clear_not_marked"}
+MEMBERSHIP_OPS = {"add", "update"} | REFILTERING  # a membership disagreement after these is R43.1, after the others R43.2
+
+
+def render(op):
+    kind, name, args = op
+    if kind == "env":
+        return f"<{name} {args[0]}>"
+    if kind == "probe":
+        return f"focus.flow = {args[0]}" if name == "focus" else f"settings[{args[0]}]"
+    if name in ("add", "update", "remove"):
+        return f"{name}([{', '.join(args)}])"
+    if name == "configure":
+        return f"configure({set(args)})"
+    return f"{name}({', '.join(str(a) for a in args)})"
+
+
+class Step:
+    """runs one operation in the world and compares the outcome with the reference"""
+
+    def __init__(self, world: World, ex: "Explorer"):
+        self.w = world
+        self.ex = ex
+
+    def problem(self, rule, op, clause, detail):
+        self.ex.problem(rule, op, clause, detail, list(self.w.history))
+
+    def run(self, op) -> bool:
+        w, ref = self.w, self.w.ref
+        kind, name, args = op
+        w.history.append(render(op))
+        n_before = self.ex.n_problems
+        if kind == "env":
+            f = w.flows[args[0]]
+            if name == "mark":
+                object.__setattr__(f, "marked", "" if f.marked else ":default:")
+            elif name == "match":
+                object.__setattr__(f, "matches", not f.matches)
+            elif name == "grow":
+                object.__setattr__(f.request, "raw_content", b"x" * (3 if len(f.request.raw_content) == 1 else 1))
+            return True
+        if kind == "probe":
+            return self.probe(op)
+        w.sig_log.clear()
+        w.mut_log.clear()
+        flows = [w.flows[a] for a in args] if name in ("add", "update", "remove") else []
+        shown_before = set(ref.shown)
+        # ---- the reference: what the operation must do
+        expect = {n: [] for n in w.flows}
+        staying = []
+        refresh = set()
+        live = lambda f: pred(ref.filter == "all" or f.matches, ref.show_marked, f.marked)
+        if name == "add":
+            for n, f in zip(args, flows):
+                if n not in ref.store:
+                    self.ex.cell("add", f.matches if ref.filter == "attr" else None, ref.show_marked, bool(f.marked))
+                    ref.store.append(n)
+                    if live(f):
+                        ref.shown.add(n)
+                        expect[n].append("sig_view_add")
+            call = [flows]
+        elif name == "update":
+            for n, f in zip(args, flows):
+                if n in ref.store:
+                    self.ex.cell("update:" + ("shown" if n in ref.shown else "hidden"), f.matches if ref.filter == "attr" else None, ref.show_marked, bool(f.marked))
+                    if live(f) and n not in ref.shown:
+                        ref.shown.add(n)
+                        expect[n].append("sig_view_add")
+                    elif live(f):
+                        expect[n].append("sig_view_update")
+                        staying.append(n)
+                    elif n in ref.shown:
+                        ref.shown.discard(n)
+                        expect[n].append("sig_view_remove")
+            call = [flows]
+        elif name == "remove":
+            for n, f in zip(args, flows):
+                if n in ref.store:
+                    if n in ref.shown:
+                        ref.shown.discard(n)
+                        expect[n].append("sig_view_remove")
+                    ref.store.remove(n)
+                    expect[n].append("sig_store_remove")
+            call = [flows]
+        elif name == "clear":
+            ref.store, ref.shown = [], set()
+            refresh = {"sig_view_refresh", "sig_store_refresh"}
+            call = []
+        elif name in REFILTERING:
+            if name == "toggle_marked":
+                ref.show_marked = not ref.show_marked
+                call = []
+            elif name == "set_filter":
+                ref.filter = args[0]
+                call = [{"all": None, "attr": w.attr_filter}[args[0]]]
+            else:
+                ref.store = [n for n in ref.store if w.flows[n].marked]
+                refresh = {"sig_store_refresh"}
+                call = []
+            for n in ref.store:
+                f = w.flows[n]
+                self.ex.cell("refilter", f.matches if ref.filter == "attr" else None, ref.show_marked, bool(f.marked))
+            ref.shown = {n for n in ref.store if live(w.flows[n])}
+            refresh = refresh | {"sig_view_refresh"}
+        elif name == "set_order":
+            call = [args[0]]
+        elif name == "configure":
+            if set(args) != {"console_focus_follow"}:
+                raise AnalysisError("C43: only configure({'console_focus_follow'}) has a reference")
+            call = [set(args)]  # focus follows new flows: no effect on membership, notifications or settings
+        elif name == "set_reversed":
+            ref.reversed = bool(args[0])
+            refresh = {"sig_view_refresh"}
+            call = [args[0]]
+        else:
+            raise AnalysisError(f"C43: operation {name} has no reference")
+        # ---- the code
+        try:
+            w.interp.method(w.view, name, *call)
+        except Raised as r:
+            self.problem("R43.2", op, "raises", f"{render(op)} raises {r.name}" + (f" ({r.msg})" if r.msg else ""))
+            return False
+        # ---- comparison
+        filed = [n for _, n in w.filed()]
+        rule = "R43.1" if name in MEMBERSHIP_OPS else "R43.2"
+        if sorted(map(str, filed)) != sorted(ref.shown):
+            extra = [n for n in filed if n not in ref.shown]
+            missing = sorted(ref.shown - set(filed))
+            dup = sorted({n for n in filed if filed.count(n) > 1})
+            what = "; ".join(x for x in (f"{extra} shown although " + " / ".join(self.why_hidden(n) for n in extra) if extra else "",
+                                         f"{missing} missing although they match" if missing else "", f"{dup} listed twice" if dup and not extra else "") if x)
+            self.problem(rule, op, "view membership disagrees with filter(f) and (not show_marked or f.marked) over the stored flows", what)
+        if set(w.store().keys()) != {w.flows[n].id for n in ref.store}:
+            self.problem("R43.2", op, "store contents", f"store holds {sorted(w.store().keys())}, expected the ids of {ref.store}")
+        listing = w.listing() if ref.reversed or name in ("set_reversed", "set_order", "add", "remove") else filed
+        want = list(reversed(filed)) if ref.reversed else filed
+        if listing != want:
+            self.problem("R43.2", op, "public listing view[i] differs from the container's order" + (" reversed" if ref.reversed else ""), f"view[0..] = {listing}, container = {filed}")
+        # per-flow notifications
+        actual = {n: [] for n in w.flows}
+        for sname, named, facts in w.sig_log:
+            fl = [w.name_of(x) for x in named.values() if isinstance(x, Rec) and x._cls == "HTTPFlow"]
+            if sname in FLOW_SIGNALS:
+                if len(fl) != 1 or fl[0] not in actual:
+                    self.problem("R43.2", op, f"{sname} without its flow", f"arguments {sorted(named)}")
+                    continue
+                n = fl[0]
+                actual[n].append(sname)
+                if sname in ("sig_view_add", "sig_view_update") and n not in facts["filed"]:
+                    self.problem("R43.2", op, f"{sname} is sent while the flow is not in the view", f"flow {n}, view at that moment {facts['filed']}")
+                if sname == "sig_view_remove":
+                    idx = [x for x in named.values() if isinstance(x, int) and not isinstance(x, bool)]
+                    if n in facts["filed"]:
+                        self.problem("R43.2", op, "sig_view_remove is sent before the flow left the view", f"flow {n}, view at that moment {facts['filed']}")
+                    elif len(idx) != 1 or facts["removed_at"].get(n) != idx[0]:
+                        self.problem("R43.2", op, "sig_view_remove does not carry the index the flow had in the view", f"flow {n}: index argument {idx}, removed at {facts['removed_at'].get(n)}")
+                if sname == "sig_store_remove" and w.flows[n].id in facts["store"]:
+                    self.problem("R43.2", op, "sig_store_remove is sent before the flow left the store", f"flow {n}")
+        for n in w.flows:
+            if actual[n] != expect[n]:
+                self.problem("R43.2", op, "per-flow notifications differ from the change made", f"flow {n}: sent {actual[n]}, the change made requires {expect[n]}")
+        sent = {s for s, _, _ in w.sig_log}
+        if refresh - sent:
+            self.problem("R43.2", op, f"{' / '.join(sorted(refresh - sent))} not sent", f"signals sent: {[s for s, _, _ in w.sig_log]}")
+        self.bookkeeping(op)
+        # update(): a flow that stays is filed under its current key
+        for n in staying:
+            keys = [k for k, m in w.filed() if m == n]
+            if len(keys) == 1:
+                lk = w.live_key(w.flows[n])
+                if keys[0] != lk:
+                    self.problem("R43.2", op, "a flow that stays in the view is not re-filed under its current sort key", f"flow {n}: filed under {keys[0]!r}, current key {lk!r}")
+        self.ex.steps += 1
+        return self.ex.n_problems == n_before
+
+    def why_hidden(self, n):
+        w, ref = self.w, self.w.ref
+        if n not in w.flows:
+            return f"{n} is not a flow of the world"
+        f = w.flows[n]
+        if n not in ref.store:
+            return f"{n} is not stored"
+        return f"filter({n})={bool(ref.filter == 'all' or f.matches)}, show_marked={ref.show_marked}, {n}.marked={bool(f.marked)}"
+
+    def bookkeeping(self, op):
+        """focus and settings invariants"""
+        w, ref = self.w, self.w.ref
+        filed = [n for _, n in w.filed()]
+        fo = w.focus_flow()
+        if fo is None and filed:
+            self.problem("R43.2", op, "focus is None although the view is not empty", f"view {filed}")
+        elif fo is not None and w.name_of(fo) not in filed:
+            self.problem("R43.2", op, "focus is a flow that is not in the view", f"focus {w.name_of(fo)}, view {filed}")
+        ids = {w.flows[n].id for n in ref.store}
+        stray = [k for k in w.settings_keys() if k not in ids]
+        if stray:
+            self.problem("R43.2", op, "Settings holds values of flows that are not stored", f"keys {stray}, stored {sorted(ids)}")
+
+    def probe(self, op) -> bool:
+        w, ref = self.w, self.w.ref
+        _, name, args = op
+        f = w.flows[args[0]]
+        n_before = self.ex.n_problems
+        if name == "focus":
+            old = w.focus_flow()
+            try:
+                w.set_focus(f)
+                raised = None
+            except Raised as r:
+                raised = r.name
+            if args[0] in ref.shown:
+                if raised or w.focus_flow() is not f:
+                    self.problem("R43.2", op, "Focus.flow setter refuses a flow of the view", f"raised {raised}")
+            else:
+                if not raised:
+                    self.problem("R43.2", op, "Focus.flow setter accepts a flow that is not in the view", f"flow {args[0]} ({self.why_hidden(args[0])})")
+                elif w.focus_flow() is not old:
+                    self.problem("R43.2", op, "Focus.flow setter changes the focus although it raises", f"flow {args[0]}")
+        else:
+            try:
+                r = w.lookup_settings(f)
+                raised = None
+            except Raised as e:
+                raised, r = e.name, None
+            if args[0] in ref.store:
+                if raised or not isinstance(r, dict):
+                    self.problem("R43.2", op, "Settings has no values for a stored flow", f"raised {raised}")
+            elif not raised:
+                self.problem("R43.2", op, "Settings creates / returns values for a flow that is not stored", f"flow {args[0]}")
+        self.bookkeeping(op)
+        self.ex.steps += 1
+        return self.ex.n_problems == n_before
+
+
+class Explorer:
+    def __init__(self, ctx):
+        self.ctx = ctx
+        self.n_problems = 0
+        self.steps = 0
+        self.states = 0
+        self.cells: dict = {}
+        self.entered: set = set()
+        self.passed: dict = {}
+        self.exhausted = True
+
+    def cell(self, site, flt, sm, mk):
+        if flt is not None:
+            self.cells.setdefault(site, set()).add((bool(flt), bool(sm), bool(mk)))
+
+    def problem(self, rule, op, clause, detail, history):
+        self.n_problems += 1
+        kind, name, args = op
+        if kind == "probe":
+            qual = "Focus.flow" if name == "focus" else "Settings.__getitem__"
+        else:
+            qual = f"View.{name}"
+        node = None
+        try:
+            node = self.ctx.model.func(F, qual)
+        except Exception:
+            pass
+        self.ctx.fail(rule, (F, qual, node if node is not None else 0), f"{qual}: {clause}", f"{detail} — history: {'; '.join(history)}", history=history)
+
+    def explore(self, setup, ops, max_states=100000, every_state=False):
+        """Breadth-first over the state classes reachable with ``ops`` = [(op, sensitive, enqueue)].  An operation whose outcome cannot depend
+        on the flows' marked / filter-match attributes (``sensitive`` False) is executed once per coarse class, the others once per fine class
+        (``every_state``: everything in every fine class); successors of ``enqueue`` operations are explored further."""
+        try:
+            w = World(self.ctx.model)
+        except SetupViolation as v:
+            self.problem(*v.args5)
+            return
+        step = Step(w, self)
+        for op in setup:
+            if not step.run(op):
+                self.entered |= w.interp.entered
+                return
+        queue = collections.deque([(w.snapshot(), w.state_class())])
+        seen = {queue[0][1][1]}
+        done = set()
+        grace = 25  # once a counterexample exists only this many further state classes are expanded (other clauses broken by the same defect)
+        while queue and self.states < max_states and grace > 0:
+            grace -= 1 if self.n_problems else 0
+            snap, (coarse, fine) = queue.popleft()
+            self.states += 1
+            for op, sensitive, enqueue in ops:
+                key = (op, fine if sensitive or every_state else coarse)
+                if key in done:
+                    continue
+                done.add(key)
+                w.restore(snap)
+                ok = step.run(op)
+                name = op[1] if op[0] != "probe" else "probe:" + op[1]
+                if op[0] != "env":
+                    self.passed[name] = self.passed.get(name, 0) + (1 if ok else 0)
+                if ok and enqueue:
+                    c = w.state_class()
+                    if c[1] not in seen:
+                        seen.add(c[1])
+                        queue.append((w.snapshot(), c))
+        self.entered |= w.interp.entered
+        self.names = dict(w.names)
+        self.exhausted = self.exhausted and not queue
+
+
+# ---------------------------------------------------------------------------------------------------
+# static closure: who writes the tracked state
+
+
+def functions_of(mod):
+    return {q: n for q, n in mod.defs().items() if isinstance(n, (ast.FunctionDef, ast.AsyncFunctionDef))}
+
+
+def direct_writes(fn, tracked):
+    """tracked attribute names this function writes directly: X.attr = .. / del X.attr[..] / X.attr[..] = .. / X.attr.mutating_method(..)"""
+    out = set()
+    for n in own_nodes(fn):
+        tgts = []
+        if isinstance(n, ast.Assign):
+            for t in n.targets:
+                tgts.extend(t.elts if isinstance(t, (ast.Tuple, ast.List)) else [t])
+        elif isinstance(n, (ast.AugAssign, ast.AnnAssign)):
+            if not (isinstance(n, ast.AnnAssign) and n.value is None):
+                tgts = [n.target]
+        elif isinstance(n, ast.Delete):
+            tgts = list(n.targets)
+        elif isinstance(n, ast.Call) and isinstance(n.func, ast.Attribute) and n.func.attr in MUTATING_METHODS:
+            if isinstance(n.func.value, ast.Attribute) and n.func.value.attr in tracked:
+                out.add(n.func.value.attr)
+        for t in tgts:
+            while isinstance(t, (ast.Subscript, ast.Starred)):
+                t = t.value
+            if isinstance(t, ast.Attribute) and t.attr in tracked:
+                out.add(t.attr)
+    return out
+
+
+def check_closure(ctx, ex: Explorer):
+    mod = ctx.model.module(F)
+    names = ex.names
+    tracked = {names["view"], names["store"], names["values"], names["focus"], "show_marked", "filter"}
+    fns = functions_of(mod)
+    writers = {q: direct_writes(fn, tracked) for q, fn in fns.items()}
+    writers = {q: w for q, w in writers.items() if w}
+    ctx.require(len(writers) >= 6, f"view.py: only {len(writers)} functions write the tracked state {sorted(tracked)} (anchors moved?)")
+    not_run = sorted(q for q in writers if fns[q] not in ex.entered)
+    ctx.require(not not_run, f"view.py: {not_run} write(s) {sorted(set().union(*(writers[q] for q in not_run)) if not_run else [])} but is not reached by the modelled "
+                "operations (add, update, remove, clear, clear_not_marked, set_filter, toggle_marked, set_order, set_reversed): not modelled")
+    for q in sorted(writers):
+        ctx.functions.add(f"{F}::{q}")
+    # functions the exploration never entered may reach a writer only through the public operations that were explored
+    by_name: dict = {}
+    for q, fn in fns.items():
+        by_name.setdefault(fn.name, []).append(q)
+
+    def callees(fn):
+        out = set()
+        for n in own_nodes(fn):
+            if isinstance(n, ast.Call) and isinstance(n.func, ast.Attribute):
+                out.update(by_name.get(n.func.attr, []))
+            elif isinstance(n, ast.Call) and isinstance(n.func, ast.Name):
+                out.update(by_name.get(n.func.id, []))
         return out
 
-    def cond_event(self, expr, value, st):
-        m = membership(expr)
-        if m:
-            return (m[0], value if m[1] else not value)
-        if self._extra:
-            r = self._extra(expr)
-            if r:
-                return (r[0], value if r[1] else not value)
-        return None
-
-    def inline(self, call, st, depth):
-        if not self._inline_private:
-            return None
-        ch = attr_chain(call.func)
-        if ch.startswith("self.") and ch.count(".") == 1:
-            name = ch.split(".")[1]
-            if name.startswith("_") and not name.startswith("__") and self._ctx.model.has(F, f"{self._cls}.{name}"):
-                fn = self._ctx.model.module(F).get(f"{self._cls}.{name}")
-                if isinstance(fn, ast.FunctionDef):
-                    return fn
-        return None
-
-
-class MembershipSpec(ViewSpec):
-    """ViewSpec that decides filter(f), self.show_marked and <flow>.marked from the cell in the environment."""
-
-    @staticmethod
-    def _is_filter_call(e):
-        return isinstance(e, ast.Call) and attr_chain(e.func) == "self.filter" and len(e.args) == 1
-
-    def value(self, expr, st, depth):
-        if attr_chain(expr) == "self.show_marked":
-            return st.get("$show_marked")
-        if isinstance(expr, ast.Attribute) and expr.attr == "marked" and isinstance(expr.value, ast.Name):
-            return st.get("$marked")
-        if self._is_filter_call(expr):
-            return st.get("$filter")
-        return super().value(expr, st, depth)
-
-    def decide_extra(self, cond, st, depth):
-        if self._is_filter_call(cond):
-            return st.get("$filter")[1]
-        if isinstance(cond, ast.Call) and isinstance(cond.func, ast.Name) and cond.func.id == "bool" and len(cond.args) == 1:
-            return self.truth(cond.args[0], st, depth)
-        return None
-
-
-def fork_ok(expr):
-    """conditions the membership rule is indifferent to"""
-    return membership(expr) is not None or attr_chain(expr) == "self.focus_follow"
-
-
-# ---------------------------------------------------------------------------------------------------
-# R43.1
-
-
-def insertion_sites(ctx):
-    view = ctx.model.cls(F, "View")
-    mem = class_members(view, strict=False)
-    helpers = set()
-    sites = []
-    for name, fn in mem.items():
-        if not isinstance(fn, ast.FunctionDef):
+    reach = set(writers)
+    changed = True
+    graph = {q: callees(fn) for q, fn in fns.items()}
+    while changed:
+        changed = False
+        for q, cs in graph.items():
+            if q not in reach and cs & reach:
+                reach.add(q)
+                changed = True
+    for q, fn in sorted(fns.items()):
+        if fn in ex.entered:
             continue
-        direct = [c for c in own_nodes(fn) if isinstance(c, ast.Call) and classify_call(c) == ("insert",)]
-        if direct and name.startswith("_") and not any(isinstance(x, (ast.If, ast.For, ast.While, ast.Try)) for x in own_nodes(fn)):
-            helpers.add(name)  # unconditional insertion helper (today: _base_add)
-    for name, fn in mem.items():
-        if not isinstance(fn, ast.FunctionDef) or name in helpers:
-            continue
-        calls = [c for c in own_nodes(fn) if isinstance(c, ast.Call)]
-        if any(classify_call(c) == ("insert",) for c in calls) or any(attr_chain(c.func) in {f"self.{h}" for h in helpers} for c in calls):
-            sites.append((name, fn))
-    return helpers, sites
-
-
-def check_membership(ctx):
-    helpers, sites = insertion_sites(ctx)
-    ctx.require(helpers, "View: no unconditional insertion helper (_base_add) found")
-    # set_order copies the old view into a re-keyed container: same members, not a membership decision
-    copy_sites = []
-    real = []
-    for name, fn in sites:
-        ins = [c for c in own_nodes(fn) if isinstance(c, ast.Call) and classify_call(c) == ("insert",)]
-        if ins and all(call_name(c) == "self._view.update" for c in ins):
-            copy_sites.append(name)
-        else:
-            real.append((name, fn))
-    ctx.require(not copy_sites, f"View.{copy_sites}: bulk insertion into self._view is not modelled")
-    ctx.require(len(real) >= 3, f"View: only {len(real)} insertion sites found ({[n for n, _ in real]}), expected _refilter, add, update")
-    for name, fn in real:
-        ctx.functions.add(f"{F}::View.{name}")
-        bad_in, bad_out, bad_evict = [], [], []
-        for flt, sm, mk in CELLS:
-            spec = MembershipSpec(ctx)
-            eng = StrictEngine(spec, fork_ok, f"View.{name}")
-            trs = eng.terminal(fn, {"$filter": C(flt), "$show_marked": C(sm), "$marked": C(mk)})
-            ctx.cells += 1
-            ctx.paths += len(trs)
-            has_ins = any(("insert",) in t for t, _, _ in trs)
-            if pred(flt, sm, mk):
-                if not has_ins:
-                    bad_out.append((flt, sm, mk))
-            else:
-                if has_ins:
-                    bad_in.append((flt, sm, mk))
-                elif name == "update" or any(e[0] == "inview" for t, _, _ in trs for e in t):
-                    # a site that handles flows already in the view must evict those that stopped matching
-                    if not any(("vremove",) in t or ("vclear",) in t for t, _, _ in trs):
-                        bad_evict.append((flt, sm, mk))
-        fmt = lambda cs: "; ".join(f"filter={a}, show_marked={b}, marked={c}" for a, b, c in cs)
-        if bad_in:
-            ctx.fail("R43.1", (F, f"View.{name}", fn), f"View.{name} inserts although {fmt(bad_in)}",
-                     "this insertion site disagrees with the membership predicate filter(f) and (not show_marked or f.marked): a flow that must be hidden is shown",
-                     cells=bad_in)
-        if bad_out:
-            ctx.fail("R43.1", (F, f"View.{name}", fn), f"View.{name} never inserts for {fmt(bad_out)}",
-                     "a flow that satisfies the membership predicate is not added to the view", cells=bad_out)
-        if bad_evict:
-            ctx.fail("R43.1", (F, f"View.{name}", fn), f"View.{name} never evicts for {fmt(bad_evict)}",
-                     "a flow in the view that stopped matching stays visible", cells=bad_evict)
-        if not (bad_in or bad_out or bad_evict):
-            ctx.ok("R43.1", f"View.{name}: 8 cells agree with filter(f) and (not show_marked or f.marked)")
-    # writers of the predicate's inputs re-filter
-    view = ctx.model.cls(F, "View")
-    for stmt, t in attribute_stores(view, {"show_marked", "filter"}):
-        fn = stmt
-        while not isinstance(fn, ast.FunctionDef):
-            fn = fn._parent
-        if fn.name == "__init__":
-            continue
-        ctx.require(attr_chain(t) in ("self.show_marked", "self.filter"), f"View.{fn.name}: write {norm(t)} not modelled")
-        trs, _ = traces_of(fn, GenericSpec(keep=lambda ev: (ev[0] == "assign" and ev[1] in ("self.show_marked", "self.filter")) or ev == ("call", "self._refilter")))
-        ctx.paths += len(trs)
-        ok = all(index_of(tr, lambda e: e == ("call", "self._refilter"), i + 1) >= 0 for tr, how, _ in trs if how == "return"
-                 for i, e in enumerate(tr) if e[0] == "assign")
-        ctx.check(ok, "R43.1", (F, f"View.{fn.name}", stmt), f"View.{fn.name}: {norm(t)} = ... without _refilter()",
-                  "the membership predicate changes but the view keeps the old members", desc=f"View.{fn.name}: {norm(t)} changed, then _refilter()")
+        private = sorted(c for c in graph[q] if c in reach and fns[c].name.startswith("_") and not fns[c].name.startswith("__"))
+        ctx.require(not private, f"view.py: {q} is not exercised by the modelled operations but calls the private state-changing helper(s) {private}: not modelled")
+    ctx.ok("R43.2", f"closure: all {len(writers)} functions that write {sorted(tracked)} were executed by the exploration; the other functions reach them only through the explored public operations")
     # nobody else reaches into the view
-    pat = re.compile(r"\bshow_marked\s*=[^=]|\._view\b|\.view\._store\b|view\.filter\s*=[^=]")
+    priv = "|".join(sorted(re.escape(n) for n in (names["view"], names["store"]) if n.startswith("_")))
+    ctx.require(priv, "the view container / store fields are not private")
+    pat = re.compile(rf"\bshow_marked\s*=[^=]|\.(?:{priv})\b|view\.filter\s*=[^=]")
     for p in sorted((ctx.model.repo / "mitmproxy").rglob("*.py")):
         rel = p.relative_to(ctx.model.repo).as_posix()
         if rel == F or rel.startswith("mitmproxy/contrib/"):
             continue
         if pat.search(ctx.model.source(rel)):
-            raise AnalysisError(f"{rel} accesses View internals (_view / _store / show_marked / filter); not modelled")
-    ctx.ok("R43.1", "no module other than view.py writes show_marked / filter or touches _view / _store")
+            raise AnalysisError(f"{rel} accesses View internals ({names['view']} / {names['store']} / show_marked / filter); not modelled")
+    ctx.ok("R43.1", "no module other than view.py writes show_marked / filter or touches the view container / the store")
 
 
 # ---------------------------------------------------------------------------------------------------
-# R43.2
 
 
-def run(ctx, qual, spec, allow=lambda e: True):
-    fn = ctx.func(F, qual)
-    eng = StrictEngine(spec, allow, qual)
-    trs = eng.terminal(fn)
-    ctx.paths += len(trs)
-    return fn, trs
+def api(name, *args):
+    return ("api", name, tuple(args))
 
 
-def before(tr, a, b):
-    """first a strictly before first b (both present)"""
-    ia, ib = index_of(tr, lambda e: e == a), index_of(tr, lambda e: e == b)
-    return 0 <= ia < ib
+def env(name, flow):
+    return ("env", name, (flow,))
 
 
-def check_store_and_signals(ctx):
-    view = ctx.model.cls(F, "View")
-    mem = class_members(view, strict=False)
-    n_store = n_view = 0
-    for name, fn in mem.items():
-        if not isinstance(fn, ast.FunctionDef):
-            continue
-        direct = []
-        for n in own_nodes(fn):
-            if isinstance(n, ast.Call) and classify_call(n) in (("insert",), ("vremove",), ("vclear",), ("storedel",)):
-                direct.append(classify_call(n)[0])
-            elif isinstance(n, ast.Call) and attr_chain(n.func) == "self._base_add":
-                direct.append("insert")
-            elif isinstance(n, ast.Delete) and any(attr_chain(getattr(t, "value", None)) == "self._store" for t in n.targets):
-                direct.append("storedel")
-        if not direct or name in ("_base_add", "set_order"):
-            continue
-        q = f"View.{name}"
-        fn, trs = run(ctx, q, ViewSpec(ctx))
-        if "storedel" in direct:
-            n_store += 1
-            bad = None
-            for tr, how, _ in trs:
-                for i, e in enumerate(tr):
-                    if e != ("storedel",):
-                        continue
-                    if index_of(tr, lambda x: x in (("send", "sig_store_remove"), ("send", "sig_store_refresh")), i + 1) < 0 and how == "return":
-                        bad = bad or ("a store deletion is not followed by sig_store_remove / sig_store_refresh: per-flow settings outlive the flow", tr)
-                    left_in_view = not (("vclear",) in tr or ("inview", False) in tr or index_of(tr, lambda x: x == ("vremove",)) in range(0, i))
-                    if left_in_view:
-                        bad = bad or ("the flow is deleted from the store but not (first) removed from the view", tr)
-                    if ("inview", True) in tr and ("vremove",) in tr and not before(tr, ("vindex",), ("vremove",)) and ("send", "sig_view_remove") in tr:
-                        bad = bad or ("the index reported with sig_view_remove is not taken before the view entry is removed", tr)
-            if bad:
-                ctx.fail("R43.2", (F, q, fn), f"{q}: store deletion bookkeeping", f"{bad[0]} (path {list(bad[1])})", path=list(bad[1]))
-            else:
-                ctx.ok("R43.2", f"{q}: store deletion -> view entry gone first, store signal afterwards ({len(trs)} paths)")
-        if set(direct) & {"insert", "vremove", "vclear"}:
-            n_view += 1
-            want = {"insert": ("sig_view_add", "sig_view_refresh"), "vremove": ("sig_view_remove", "sig_view_refresh"), "vclear": ("sig_view_refresh",)}
-            bad = None
-            for tr, how, _ in trs:
-                if how != "return":
-                    continue
-                for i, e in enumerate(tr):
-                    if e[0] in want and index_of(tr, lambda x: x[0] == "send" and x[1] in want[e[0]], i + 1) < 0:
-                        bad = bad or (f"{e[0]} is not followed by {' / '.join(want[e[0]])}", tr)
-            if bad:
-                ctx.fail("R43.2", (F, q, fn), f"{q}: view mutation without notification", f"{bad[0]} (path {list(bad[1])})", path=list(bad[1]))
-            else:
-                ctx.ok("R43.2", f"{q}: every view mutation is followed by its sig_view_* signal ({len(trs)} paths)")
-    ctx.require(ctx.findings or (n_store >= 3 and n_view >= 5), f"View: found {n_store} store-deleting and {n_view} view-mutating methods (expected >= 3 and >= 5)")
+# (operation, its outcome depends on f1's marked / filter-match attributes, successors are explored further)
+OPS = [
+    (env("mark", "f1"), True, True), (env("match", "f1"), True, True), (env("grow", "f1"), True, True),
+    (api("add", "f1"), True, True), (api("update", "f1"), True, True), (api("remove", "f1"), True, True),
+    (api("toggle_marked"), True, True), (api("clear_not_marked"), True, True), (api("set_filter", "attr"), False, True),
+    (api("add", "f2"), False, True), (api("remove", "f2"), False, True), (api("clear"), False, True), (api("update", "f2"), False, True),
+    (api("add", "f2", "f1"), False, False), (api("update", "f1", "f2"), False, False), (api("remove", "f1", "f2"), False, False),
+    (api("set_filter", "all"), False, False),
+    (("probe", "focus", ("f1",)), False, False), (("probe", "focus", ("f2",)), False, False),
+    (("probe", "settings", ("f1",)), False, False), (("probe", "settings", ("f2",)), False, False),
+]
 
 
-def check_settings(ctx):
-    init = ctx.func(F, "Settings.__init__")
-    conns = {(attr_chain(c.func), attr_chain(c.args[0]) if c.args else "") for c in own_nodes(init) if isinstance(c, ast.Call) and last_attr(c.func) == "connect"}
-    for sig, h in (("sig_store_remove", "_sig_store_remove"), ("sig_store_refresh", "_sig_store_refresh")):
-        ctx.check((f"view.{sig}.connect", f"self.{h}") in conns, "R43.2", (F, "Settings.__init__", init), f"Settings: {sig} -> {h} not connected",
-                  "settings of removed flows are never dropped", desc=f"Settings connects {sig} -> {h}")
-    fn, trs = run(ctx, "Settings._sig_store_remove", ViewSpec(ctx, "Settings", lambda e: ("known", True) if membership_values(e) else None),
-                  lambda e: membership_values(e))
-    ok = any(any(x[0] == "del" and "self._values" in x[1] for x in tr) for tr, _, _ in trs) and all(
-        any(x[0] == "del" and "self._values" in x[1] for x in tr) or ("known", False) in tr for tr, _, _ in trs)
-    ctx.check(ok, "R43.2", (F, "Settings._sig_store_remove", fn), "Settings._sig_store_remove keeps the values of the removed flow",
-              "per-flow settings must exist only for stored flows", desc="Settings._sig_store_remove deletes self._values[flow.id] when present")
-    fn, trs = run(ctx, "Settings._sig_store_refresh", ViewSpec(ctx, "Settings"), lambda e: membership(e) is not None)
-    ok = all(any(x[0] == "del" and "self._values" in x[1] for x in tr) for tr, _, _ in trs if ("instore", False) in tr) and any(("instore", False) in tr for tr, _, _ in trs)
-    ctx.check(ok, "R43.2", (F, "Settings._sig_store_refresh", fn), "Settings._sig_store_refresh keeps values of flows that left the store",
-              "per-flow settings must exist only for stored flows", desc="Settings._sig_store_refresh deletes every id that is not in view._store")
-    fn, trs = run(ctx, "Settings.__getitem__", ViewSpec(ctx, "Settings"), lambda e: membership(e) is not None)
-
-    class G(ViewSpec):
-        def events(self, node, st):
-            return [("create",) for n in eval_order(node) if isinstance(n, ast.Call) and last_attr(n.func) in ("setdefault", "__setitem__")] + [
-                ("create",) for t in (node.targets if isinstance(node, ast.Assign) else []) if isinstance(t, ast.Subscript) and attr_chain(t.value) == "self._values"]
-
-    fn, trs = run(ctx, "Settings.__getitem__", G(ctx, "Settings"), lambda e: membership(e) is not None)
-    ok = any(("create",) in tr for tr, _, _ in trs) and all(before(tr, ("instore", True), ("create",)) for tr, _, _ in trs if ("create",) in tr)
-    ctx.check(ok, "R43.2", (F, "Settings.__getitem__", fn), "Settings.__getitem__ creates values without checking the store",
-              "settings would be created for flows that are not stored", desc="Settings.__getitem__ creates values only for flows in view._store")
+def single(*ops):
+    return [(op, False, False) for op in ops]
 
 
-def membership_values(expr):
-    return isinstance(expr, ast.Compare) and len(expr.ops) == 1 and isinstance(expr.ops[0], (ast.In, ast.NotIn)) and attr_chain(expr.comparators[0]) == "self._values" \
-        and isinstance(expr.ops[0], ast.In)
-
-
-def focus_cond(expr):
-    """classify the conditions used by the Focus handlers -> (kind, positive?)"""
-    t = norm(expr)
-    table = {
-        "len(self.view) == 0": ("empty", True), "len(self.view) != 0": ("empty", False), "len(self.view) > 0": ("empty", False),
-        "len(self.view)": ("empty", False), "self.view": ("empty", False),
-        "self.flow is None": ("nofocus", True), "self.flow is not None": ("nofocus", False), "self.flow": ("nofocus", False),
-        "self.flow not in self.view": ("stale", True), "self.flow in self.view": ("stale", False),
-        "flow is self.flow": ("isfocus", True), "self.flow is flow": ("isfocus", True), "flow is not self.flow": ("isfocus", False),
-        "f is not None": ("given", True), "f is None": ("given", False), "f not in self.view": ("foreign", True), "f in self.view": ("foreign", False),
-    }
-    return table.get(t)
-
-
-def check_focus(ctx):
-    focus = ctx.model.cls(F, "Focus")
-    init = ctx.func(F, "Focus.__init__")
-    conns = {(attr_chain(c.func), attr_chain(c.args[0]) if c.args else "") for c in own_nodes(init) if isinstance(c, ast.Call) and last_attr(c.func) == "connect"}
-    for sig in ("sig_view_add", "sig_view_remove", "sig_view_refresh"):
-        ctx.check((f"v.{sig}.connect", f"self._{sig}") in conns, "R43.2", (F, "Focus.__init__", init), f"Focus: {sig} not connected",
-                  "the focus is not repaired when the view changes", desc=f"Focus connects {sig}")
-    # the only writer of _flow is the guarded setter
-    setter = ctx.func(F, "Focus.flow")
-    ctx.require(any(norm(d) == "flow.setter" for d in setter.decorator_list), "Focus.flow: the last definition is not the setter")
-    for stmt, t in attribute_stores(focus, {"_flow"}):
-        fn = stmt
-        while not isinstance(fn, ast.FunctionDef):
-            fn = fn._parent
-        if fn is setter:
-            continue
-        val = getattr(stmt, "value", None)
-        ctx.check(fn.name == "__init__" and isinstance(val, ast.Constant) and val.value is None, "R43.2", (F, f"Focus.{fn.name}", stmt), f"Focus.{fn.name} writes {norm(t)} directly",
-                  "the focus is set without the `f in view` guard of the setter", desc="Focus.__init__: _flow = None")
-    allow = lambda e: focus_cond(e) is not None
-    sp = lambda: ViewSpec(ctx, "Focus", focus_cond, inline_private=False)
-    fn, trs = run(ctx, "Focus.flow", sp(), allow)
-    writes = [tr for tr, _, _ in trs if any(e[0] == "assign" and e[1] == "self._flow" for e in tr)]
-    ctx.require(writes, "Focus.flow setter never assigns self._flow (shape not recognised)")
-    ok = all(("given", False) in tr or ("foreign", False) in tr for tr in writes)
-    for tr, how, _ in trs:
-        if ("given", True) in tr and ("foreign", True) in tr and how == "return":
-            ok = False
-    ctx.check(ok, "R43.2", (F, "Focus.flow", fn), "Focus.flow setter accepts a flow that is not in the view", "the focus must always be a flow of the view",
-              desc="Focus.flow setter: raises for a flow outside the view, assigns otherwise")
-
-    def handler(q, must_move):
-        fn, trs = run(ctx, q, sp(), allow)
-        bad = None
-        moved_somewhere = False
-        for tr, how, _ in trs:
-            assigns = [e for e in tr if e[0] == "assign" and e[1] in ("self.flow", "self.index")]
-            moved_somewhere = moved_somewhere or any(a[2] != "None" for a in assigns)
-            if any(a[2] == "None" for a in assigns) and ("empty", True) not in tr:
-                bad = bad or ("focus is cleared although the view is not known to be empty", tr)
-            if ("empty", True) in tr and not any(a[2] == "None" for a in assigns):
-                bad = bad or ("focus is kept although the view is empty", tr)
-            if must_move(tr) and not any(a[2] != "None" for a in assigns):
-                bad = bad or ("focus is not moved to a flow of the view", tr)
-        ctx.require(bad or moved_somewhere, f"{q}: no path moves the focus (shape not recognised)")
-        ctx.check(not bad, "R43.2", (F, q, fn), f"{q}: {bad[0] if bad else ''}", f"{bad[0] if bad else ''} (path {list(bad[1]) if bad else ''})",
-                  desc=f"{q}: None iff view empty, refocus when needed ({len(trs)} paths)")
-
-    handler("Focus._sig_view_remove", lambda tr: ("empty", False) in tr and ("isfocus", True) in tr)
-    handler("Focus._sig_view_refresh", lambda tr: ("empty", False) in tr and (("nofocus", True) in tr or ("stale", True) in tr))
-    fn, trs = run(ctx, "Focus._sig_view_add", sp(), allow)
-    ok = all(any(e[0] == "assign" and e[1] == "self.flow" and e[2] != "None" for e in tr) for tr, _, _ in trs if ("nofocus", True) in tr) and any(("nofocus", True) in tr for tr, _, _ in trs)
-    ctx.check(ok, "R43.2", (F, "Focus._sig_view_add", fn), "Focus._sig_view_add leaves the focus empty", "after an addition the view is not empty, so a focus must exist",
-              desc="Focus._sig_view_add focuses the new flow when there was no focus")
-
-
-def check_order_key(ctx):
-    # update(): flows that stay in the view get their order key refreshed
-    upd = ctx.func(F, "View.update")
-    found = bad = 0
-    for flt, sm, mk in CELLS:
-        if not pred(flt, sm, mk):
-            continue
-        eng = StrictEngine(MembershipSpec(ctx), fork_ok, "View.update")
-        for tr, how, _ in eng.terminal(upd, {"$filter": C(flt), "$show_marked": C(sm), "$marked": C(mk)}):
-            if ("instore", True) in tr and ("inview", True) in tr:
-                found += 1
-                if not (("rekey",) in tr and index_of(tr, lambda e: e == ("send", "sig_view_update")) > index_of(tr, lambda e: e == ("rekey",))):
-                    bad += 1
-    ctx.require(found, "View.update: no path for a flow that stays in the view")
-    ctx.check(not bad, "R43.2", (F, "View.update", upd), "View.update: flow stays in the view without order_key.refresh(f) before sig_view_update",
-              "a changed sort key leaves the flow at its old position (and corrupts the sorted container)", desc="View.update: order_key.refresh(f) then sig_view_update for flows that stay")
-    # _OrderKey.refresh: remove (old key) -> store new key -> add
-    class K(GenericSpec):
-        def events(self, node, st):
-            out = []
-            for n in eval_order(node):
-                if isinstance(n, ast.Call) and call_name(n) == "self.view._view.remove":
-                    out.append(("remove",))
-                elif isinstance(n, ast.Call) and call_name(n) == "self.view._view.add":
-                    out.append(("add",))
-            if isinstance(node, ast.Assign) and any(isinstance(t, ast.Subscript) and "self.view.settings" in norm(t) for t in node.targets):
-                out.append(("store-key",))
-            return out
-
-    fn = ctx.func(F, "_OrderKey.refresh")
-    trs, _ = traces_of(fn, K())
-    ctx.paths += len(trs)
-    changed = [tr for tr, _, _ in trs if tr]
-    ctx.require(changed, "_OrderKey.refresh: no path re-sorts (shape not recognised)")
-    ok = all(tr == (("remove",), ("store-key",), ("add",)) for tr in changed)
-    ctx.check(ok, "R43.2", (F, "_OrderKey.refresh", fn), f"_OrderKey.refresh order {[e[0] for e in changed[0]]}",
-              "the flow must be removed under its old key, re-keyed, then added: otherwise the sorted container cannot find or misplaces it",
-              desc="_OrderKey.refresh: remove -> store new key -> add")
+ALL_CELLS = {(a, b, c) for a in (True, False) for b in (True, False) for c in (True, False)}
 
 
 def check(ctx):
-    ctx.rule("R43.1", "every insertion site of View agrees with filter(f) and (not show_marked or f.marked) on all 8 combinations; update evicts; "
-             "writers of filter / show_marked re-filter")
-    ctx.rule("R43.2", "store deletions signal and leave no view entry behind; view mutations signal; Settings holds stored flows only; Focus holds a flow "
-             "of the view; order keys are refreshed remove -> re-key -> add")
-    check_membership(ctx)
-    check_store_and_signals(ctx)
-    check_settings(ctx)
-    check_focus(ctx)
-    check_order_key(ctx)
-    ctx.assume("one flow per call (loops unrolled once); signal handlers run synchronously and do not re-enter the view")
-    ctx.trust("sortedcontainers.SortedListWithKey keeps its elements sorted by the key it was constructed with")
+    ctx.rule("R43.1", "after add / update / set_filter / toggle_marked / clear_not_marked the view holds exactly the stored flows with filter(f) and "
+             "(not show_marked or f.marked), on all 8 combinations (new, changed, evicted and re-filtered flows)")
+    ctx.rule("R43.2", "store deletions never leave a view entry behind; per-flow notifications match the change, are sent after it and carry the "
+             "flow's index; refresh signals are sent; Settings holds stored flows only; Focus holds a flow of the view (None iff empty); update re-files "
+             "under the current key; every writer of the tracked state is covered by the explored operations")
+    ex = Explorer(ctx)
+    size_mode = [api("set_filter", "attr"), api("set_order", "size")]
+    time_mode = [api("set_filter", "attr"), api("set_reversed", True), api("configure", "console_focus_follow")]
+    thorough = ctx.tier == "thorough"
+    # quick: default order (reversed) with every marked / filter-match combination, then the size order with sort-key changes (the flow under test
+    # stays unmarked); thorough: every environment change in both orders.  Both explorations run to exhaustion.
+    without = lambda *names: [o for o in OPS if thorough or not (o[0][0] == "env" and o[0][1] in names)]
+    ex.explore(time_mode, without("grow") + single(api("set_order", "size"), api("set_order", "method"), api("set_reversed", False)))
     if not ctx.findings:
-        ctx.expect_instances("R43.1", 3 + 2 + 1)
-        ctx.expect_instances("R43.2", 3 + 5 + 5 + 3 + 1 + 1 + 3 + 2)
+        ex.explore(size_mode, without("mark") + single(api("set_order", "time"), api("set_order", "url"), api("set_reversed", True)))
+    ctx.cells += sum(len(v) for v in ex.cells.values())
+    ctx.paths += ex.steps
+    ctx.bounds.append(f"{ex.states} state classes expanded, {ex.steps} interpreted steps compared with the reference (two flows)")
+    if ctx.findings:
+        return
+    for site in ("add", "update:shown", "update:hidden", "refilter"):
+        missing = ALL_CELLS - ex.cells.get(site, set())
+        ctx.require(not missing, f"exploration did not exercise {site} for filter/show_marked/marked = {sorted(missing)} (bound too small)")
+        ctx.ok("R43.1", f"{site}: all 8 combinations of filter(f) x show_marked x f.marked agree with the reference")
+    for name in ("add", "update", "toggle_marked", "set_filter", "clear_not_marked"):
+        ctx.require(ex.passed.get(name), f"View.{name} was never executed")
+        ctx.ok("R43.1", f"View.{name}: {ex.passed[name]} executions leave exactly the matching stored flows in the view")
+    for name in ("remove", "clear", "set_order", "set_reversed", "probe:focus", "probe:settings"):
+        ctx.require(ex.passed.get(name), f"{name} was never executed")
+        ctx.ok("R43.2", f"{name}: {ex.passed[name]} executions agree with the reference (members, notifications, focus, settings)")
+    ctx.guard(check_closure, ctx, ex)
+    ctx.assume("worlds of two flows; signal handlers run synchronously and do not re-enter the view")
+    ctx.trust("sortedcontainers.SortedKeyList keeps its elements sorted by the key computed at insertion and finds them by the key function's current answer")
+    ctx.trust("mitmproxy.utils.signals.SyncSignal calls its receivers synchronously in connection order")
+    if not ctx.deferred:
+        ctx.expect_instances("R43.1", 4 + 5 + 1)
+        ctx.expect_instances("R43.2", 6 + 1)
 
 
 MUTANTS = [
@@ -524,14 +1146,21 @@ MUTANTS = [
     Mutant("remove-without-store-signal", F, "                del self._store[f.id]\n                self.sig_store_remove.send(flow=f)\n", "                del self._store[f.id]\n", "R43.2"),
     Mutant("remove-keeps-view-entry", F, "                    idx = self._view.index(f)\n                    self._view.remove(f)\n                    self.sig_view_remove.send(flow=f, index=idx)\n                del",
            "                    idx = self._view.index(f)\n                    self.sig_view_remove.send(flow=f, index=idx)\n                del", "R43.2"),
+    Mutant("remove-signals-wrong-index", F, "                    idx = self._view.index(f)\n                    self._view.remove(f)\n                    self.sig_view_remove.send(flow=f, index=idx)\n                del",
+           "                    idx = self._view.index(f)\n                    self._view.remove(f)\n                    self.sig_view_remove.send(flow=f, index=idx + 1)\n                del", "R43.2"),
     Mutant("clear-without-view-refresh", F, "        self._view.clear()\n        self.sig_view_refresh.send()\n        self.sig_store_refresh.send()", "        self._view.clear()\n        self.sig_store_refresh.send()", "R43.2"),
     Mutant("add-without-signal", F, "                        self.focus.flow = f\n                    self.sig_view_add.send(flow=f)\n\n    def get_by_id", "                        self.focus.flow = f\n\n    def get_by_id", "R43.2"),
+    Mutant("add-signals-before-insert", F, "                if self._in_view(f):\n                    self._base_add(f)\n                    if self.focus_follow:\n                        self.focus.flow = f\n                    self.sig_view_add.send(flow=f)\n\n    def get_by_id",
+           "                if self._in_view(f):\n                    self.sig_view_add.send(flow=f)\n                    self._base_add(f)\n\n    def get_by_id", "R43.2"),
     Mutant("settings-keep-removed-flow", F, "        if flow.id in self._values:\n            del self._values[flow.id]", "        if flow.id in self._values:\n            pass", "R43.2"),
+    Mutant("settings-not-pruned-on-refresh", F, "            if fid not in self.view._store:\n                del self._values[fid]", "            if fid not in self.view._store:\n                pass", "R43.2"),
     Mutant("settings-created-for-unknown-flow", F, "        if f.id not in self.view._store:\n            raise KeyError\n        return self._values.setdefault", "        return self._values.setdefault", "R43.2"),
     Mutant("focus-setter-unguarded", F, "        if f is not None and f not in self.view:\n            raise ValueError(\"Attempt to set focus to flow not in view\")\n", "", "R43.2"),
     Mutant("focus-keeps-stale-flow-on-refresh", F, "        elif self.flow not in self.view:\n            self.flow = self.view[self._nearest(self.flow, self.view)]", "        elif self.flow not in self.view:\n            pass", "R43.2"),
     Mutant("focus-not-cleared-when-view-empties", F, "    def _sig_view_remove(self, flow, index):\n        if len(self.view) == 0:\n            self.flow = None\n        elif flow is self.flow:",
            "    def _sig_view_remove(self, flow, index):\n        if flow is self.flow and len(self.view) > 0:", "R43.2"),
+    Mutant("focus-empty-after-add", F, "        if not self.flow:\n            self.flow = flow", "        if not self.flow:\n            pass", "R43.2"),
     Mutant("update-does-not-refresh-order-key", F, "                        self.order_key.refresh(f)\n", "", "R43.2"),
     Mutant("rekey-before-remove", F, "            self.view._view.remove(f)\n            self.view.settings[f][k] = new\n", "            self.view.settings[f][k] = new\n            self.view._view.remove(f)\n", "R43.2"),
+    Mutant("reversed-listing-not-reversed", F, "                idx = len(self._view) - idx - 1\n                if idx < 0:", "                idx = idx\n                if idx < 0:", "R43.2"),
 ]
